@@ -355,7 +355,7 @@ class SigmaString(SigmaType):
 
     def __add__(self, other: "SigmaString" | str | SpecialChars | Placeholder) -> "SigmaString":
         s = self.__class__()
-        if isinstance(other, self.__class__):
+        if isinstance(other, SigmaString):  # any Sigma string; the result has the class of the left operand
             s.s = self.s + other.s
         elif isinstance(other, (str, SpecialChars, Placeholder)):
             s.s = self.s + [other]
@@ -499,10 +499,11 @@ class SigmaString(SigmaType):
         s = self.s
         for i in range(len(s)):
             if isinstance(s[i], Placeholder):  # Placeholder instance at index, do replacement
-                prefix = SigmaString()
+                # prefix and suffix keep the class of the string: a case-sensitive string stays case-sensitive
+                prefix = self.__class__()
                 prefix.s = s[:i]
                 placeholder = s[i]
-                suffix = SigmaString()
+                suffix = self.__class__()
                 suffix.s = s[i + 1 :]
                 return [
                     prefix + replacement + result_suffix
